@@ -3,7 +3,7 @@ import random
 
 from knncommon import *  # noqa
 
-KNN_FILES = ["Model/Heap", "Model/Knn", "Model/Pdf", "Model/RunKnn"]
+KNN_FILES = ["Model/Heap", "Model/Knn", "Model/Pdf", "Model/KnnFit", "Model/RunKnn"]
 REQ = ("Model.Run", "Model.RunSup", "Model.RunKnn")
 
 ASSUME = ["all distances finite, non-NaN and strictly below FLOAT_MAX",
